@@ -906,3 +906,36 @@ def gen_query(rng):
             cmds.append(("se", ("r", 10), 0, rng.randrange(2), val, None, None)); cmds.append(("st",))
     case["cmds"] = cmds
     return case
+
+
+def gen_timeout(rng):
+    """C11: an overrunning step.  Simulation::set_timeout(1 s); one handler sleeps 5 s (harness op `slp`): the call that
+    runs it must return Timeout, and every later attempt to run the simulation Terminated, without running model code
+    or moving the time.  Oracle-only family (the model has no wall clock).  The margins (a quick call has 1 s, the slow
+    handler overruns by 4 s) keep the verdict independent of the load of the machine; an early, spurious Timeout of a
+    quick call is accepted by the oracle (everything after it must still be Terminated)."""
+    n = rng.randint(1, 3)
+    models = []
+    for i in range(n):
+        models.append({"cap": rng.choice([1, 2, 16]), "handlers": [[("slp", 5000)], [], []], "repliers": [([], 0), ([], 7)],
+                       "outs": [], "reqs": [], "init": []})
+    slow_m = rng.randrange(n)
+    cmds = [("to", 1000)]
+    for _ in range(rng.randint(0, 2)):
+        cmds.append(("pe", rng.randrange(n), 1, rng.randrange(100)))
+    if rng.random() < 0.5:
+        cmds.append(("se", ("a", 10), rng.randrange(n), 2, 5, None, None))     # something left in the queue
+    slow = len(cmds)
+    if rng.random() < 0.5:
+        cmds.append(("pe", slow_m, 0, 1))
+    else:
+        cmds.insert(slow, ("se", ("a", 5), slow_m, 0, 1, None, None)); slow += 1
+        cmds.append(("st",))
+    for _ in range(rng.randint(2, 4)):
+        r = rng.random()
+        if r < 0.3: cmds.append(("st",))
+        elif r < 0.5: cmds.append(("su", ("a", 50)))
+        elif r < 0.75: cmds.append(("pe", rng.randrange(n), 1, 3))
+        else: cmds.append(("pq", rng.randrange(n), 0, 4))
+    return {"models": models, "sinks": [], "mode": "seq", "tags": {"timeout"}, "threads": 1, "t0": 0, "clock": [], "sources": [],
+            "cmds": cmds, "slow_cmd": slow}
